@@ -849,10 +849,30 @@ class Evaluator:
         return ("call", model, args)
 
     # ---- closures and payloads
+    def fn_by_path(self, path):
+        """body of the crate-local function a `fnref` term names (matched on the path without generic arguments)"""
+        idx = getattr(self, "_fn_by_path", None)
+        if idx is None:
+            idx = {}
+            for b in self.facts.bodies.values():
+                if not b.is_closure and b.kind != "Promoted":
+                    idx.setdefault(re.sub(r"::<[^<>]*>", "", norm_std(b.path)), []).append(b)
+            self._fn_by_path = idx
+        key = re.sub(r"::<[^<>]*>", "", path.strip())
+        c = idx.get(key, [])
+        return c[0] if len(c) == 1 else None
+
     def closure_ret(self, ctx, clo, args):
         """Result term of calling closure term `clo` (an ('agg','closure:<def>',upvars)) with argument terms."""
         if clo[0] == "ref":
             clo = clo[1]
+        if clo[0] == "fnref":
+            # a path to a function of the crate used as the mapping (`len.map_or(Maybe, HasMore::from_remaining_len)`)
+            cb = self.fn_by_path(clo[1])
+            if cb is not None and cb.def_ not in ctx.stack and ctx.depth < self.MAX_DEPTH and len(args) == cb.arg_count:
+                nctx = Ctx(cb, params=tuple(args), self_adt=self.facts.impl_self_adt(cb) or ctx.self_adt, bindings=ctx.bindings,
+                           depth=ctx.depth + 1, site=ctx.site + ((cb.def_, "fnref"),), stack=ctx.stack + (cb.def_,))
+                return self.local(nctx, 0)
         if clo[0] == "fnref" and len(args) == 1:
             # a path to a function used as the mapping (`opt.map(Iterator::copied)`)
             base = re.sub(r"::<[^>]*>$", "", clo[1].strip())
